@@ -317,5 +317,5 @@ func isSemver(l string) bool {
 }
 
 func TestC10(t *testing.T) {
-	drv.Main(t, drv.Driver{ID: "C10", Gen: gen10, Run: run10, CaseTimeout: 5 * time.Minute})
+	drv.Main(t, drv.Driver{ID: "C10", Gen: gen10, Run: run10, CaseTimeout: 30 * time.Minute})
 }
